@@ -125,10 +125,13 @@ def leadBytes (cdda : Bool) (l : CLead) : List Nat :=
   beBytes 8 l.offset ++ [if cdda then cueLeadOutCdda else cueLeadOutNonCdda] ++ padTo 12 l.isrc
     ++ [flagsByte l.nonAudio l.preEmph] ++ List.replicate 13 0 ++ [0]
 
-/-- `ToBitStream for Cuesheet`; `none` = the writer refuses (`InvalidCatalogNumber`) -/
-def cueBytes (c : Cue) : Option (List Nat) :=
-  if !c.cdda && cueCatalogChecked && c.catalog.length > cueCatalogLen then none else
-  some (padTo cueCatalogLen c.catalog ++ beBytes 8 (if c.cdda then c.leadIn else 0) ++ [if c.cdda then 128 else 0]
+/-- `ToBitStream for Cuesheet`.  `.err` = the writer refuses (`InvalidCatalogNumber`);
+    `.panic` = one of its `u8::try_from(..).unwrap()` count conversions fails. -/
+def cueBytes (c : Cue) : Res (List Nat) :=
+  if !c.cdda && cueCatalogChecked && c.catalog.length > cueCatalogLen then .error (.err "InvalidCatalogNumber")
+  else if c.tracks.length + 1 > 255 then .error (.panic "Cuesheet::to_writer: u8::try_from(tracks.len() + 1).unwrap()")
+  else if c.tracks.any (fun t => t.points.length > 255) then .error (.panic "Track::to_writer: index_points.len().try_into().unwrap()")
+  else .ok (padTo cueCatalogLen c.catalog ++ beBytes 8 (if c.cdda then c.leadIn else 0) ++ [if c.cdda then 128 else 0]
     ++ List.replicate 258 0 ++ [c.tracks.length + 1] ++ c.tracks.flatMap trackBytes ++ leadBytes c.cdda c.lead)
 
 /-! ### reader -/
@@ -150,29 +153,50 @@ def readIsrc (b : List Nat) : Res (List Nat) :=
 def readIndexes (cdda : Bool) : Nat → List Nat → Res (List CIndex × List Nat)
   | 0, b => .ok ([], b)
   | n+1, b =>
-    match takeBytes 12 b with
+    match takeBytes 8 b with
     | .error e => .error e
-    | .ok (h, r) =>
-      if cdda && beNat (h.take 8) % cueSector != 0 then .error (.err "InvalidCDDAOffset") else
-      match readIndexes cdda n r with
+    | .ok (off, r0) =>
+      if cdda && beNat off % cueSector != 0 then .error (.err "InvalidCDDAOffset") else
+      match takeBytes 1 r0 with
       | .error e => .error e
-      | .ok (is, r2) => .ok ({ offset := beNat (h.take 8), number := h.getD 8 0 } :: is, r2)
+      | .ok (num, r1) =>
+        match takeBytes 3 r1 with
+        | .error e => .error e
+        | .ok (_, r) =>
+          match readIndexes cdda n r with
+          | .error e => .error e
+          | .ok (is, r2) => .ok ({ offset := beNat off, number := num.headD 0 } :: is, r2)
 
 def readTrack (cdda : Bool) (b : List Nat) : Res (CTrack × List Nat) :=
-  match takeBytes 36 b with
+  match takeBytes 8 b with
   | .error e => .error e
-  | .ok (h, r) =>
-    if cdda && beNat (h.take 8) % cueSector != 0 then .error (.err "InvalidCDDAOffset")
-    else if h.getD 8 0 == 0 then .error (.err "InvalidIndexPoint") else
-    match readIsrc ((h.drop 9).take 12) with
+  | .ok (off, r0) =>
+    if cdda && beNat off % cueSector != 0 then .error (.err "InvalidCDDAOffset") else
+    match takeBytes 1 r0 with
     | .error e => .error e
-    | .ok isrc =>
-      match readIndexes cdda (h.getD 35 0) r with
+    | .ok (num, r1) =>
+      if num.headD 0 == 0 then .error (.err "InvalidIndexPoint") else
+      match takeBytes 12 r1 with
       | .error e => .error e
-      | .ok (pts, r2) =>
-        if !indexVecOk (if cdda then cueCddaIndexMax else cueNonCddaIndexMax) pts then .error (.err "IndexPointsOutOfSequence") else
-        .ok ({ offset := beNat (h.take 8), number := h.getD 8 0, isrc, nonAudio := h.getD 21 0 / 128 == 1,
-               preEmph := h.getD 21 0 / 64 % 2 == 1, points := pts }, r2)
+      | .ok (ib, r2) =>
+        match readIsrc ib with
+        | .error e => .error e
+        | .ok isrc =>
+          match takeBytes 1 r2 with
+          | .error e => .error e
+          | .ok (fl, r3) =>
+            match takeBytes 13 r3 with
+            | .error e => .error e
+            | .ok (_, r4) =>
+              match takeBytes 1 r4 with
+              | .error e => .error e
+              | .ok (cnt, r5) =>
+                match readIndexes cdda (cnt.headD 0) r5 with
+                | .error e => .error e
+                | .ok (pts, r6) =>
+                  if !indexVecOk (if cdda then cueCddaIndexMax else cueNonCddaIndexMax) pts then .error (.err "IndexPointsOutOfSequence") else
+                  .ok ({ offset := beNat off, number := num.headD 0, isrc, nonAudio := fl.headD 0 / 128 == 1,
+                         preEmph := fl.headD 0 / 64 % 2 == 1, points := pts }, r6)
 
 def readTracks (cdda : Bool) : Nat → List Nat → Res (List CTrack × List Nat)
   | 0, b => .ok ([], b)
@@ -185,36 +209,67 @@ def readTracks (cdda : Bool) : Nat → List Nat → Res (List CTrack × List Nat
       | .ok (ts, r2) => .ok (t :: ts, r2)
 
 def readLead (cdda : Bool) (b : List Nat) : Res (CLead × List Nat) :=
-  match takeBytes 36 b with
+  match takeBytes 8 b with
   | .error e => .error e
-  | .ok (h, r) =>
-    if cdda && beNat (h.take 8) % cueSector != 0 then .error (.err "InvalidCDDAOffset")
-    else if h.getD 8 0 != (if cdda then cueLeadOutCdda else cueLeadOutNonCdda) then .error (.err "TracksOutOfSequence") else
-    match readIsrc ((h.drop 9).take 12) with
+  | .ok (off, r0) =>
+    if cdda && beNat off % cueSector != 0 then .error (.err "InvalidCDDAOffset") else
+    match takeBytes 1 r0 with
     | .error e => .error e
-    | .ok isrc =>
-      if h.getD 35 0 != 0 then .error (.err "IndexPointsInLeadout") else
-      .ok ({ offset := beNat (h.take 8), isrc, nonAudio := h.getD 21 0 / 128 == 1, preEmph := h.getD 21 0 / 64 % 2 == 1 }, r)
+    | .ok (num, r1) =>
+      if num.headD 0 != (if cdda then cueLeadOutCdda else cueLeadOutNonCdda) then .error (.err "TracksOutOfSequence") else
+      match takeBytes 12 r1 with
+      | .error e => .error e
+      | .ok (ib, r2) =>
+        match readIsrc ib with
+        | .error e => .error e
+        | .ok isrc =>
+          match takeBytes 1 r2 with
+          | .error e => .error e
+          | .ok (fl, r3) =>
+            match takeBytes 13 r3 with
+            | .error e => .error e
+            | .ok (_, r4) =>
+              match takeBytes 1 r4 with
+              | .error e => .error e
+              | .ok (cnt, r5) =>
+                if cnt.headD 0 != 0 then .error (.err "IndexPointsInLeadout") else
+                .ok ({ offset := beNat off, isrc, nonAudio := fl.headD 0 / 128 == 1, preEmph := fl.headD 0 / 64 % 2 == 1 }, r5)
+
+/-- catalog number field: trailing NULs trimmed, digits only, CD-DA: empty or exactly 13 -/
+def readCatalog (cdda : Bool) (field : List Nat) : Res (List Nat) :=
+  if !(trimNulls field).all isDigit then .error (.err "InvalidCatalogNumber")
+  else if cdda && !((trimNulls field).isEmpty || (trimNulls field).length == 13) then .error (.err "InvalidCatalogNumber")
+  else .ok (trimNulls field)
 
 /-- `FromBitStream for Cuesheet`: the value and the unread rest -/
 def parseCue (b : List Nat) : Res (Cue × List Nat) :=
-  match takeBytes 396 b with
+  match takeBytes cueCatalogLen b with
   | .error e => .error e
-  | .ok (h, r) =>
-    let cdda := h.getD 136 0 / 128 == 1
-    let cat := trimNulls (h.take cueCatalogLen)
-    let count := h.getD 395 0
-    if !cat.all isDigit then .error (.err "InvalidCatalogNumber")
-    else if cdda && !(cat.isEmpty || cat.length == 13) then .error (.err "InvalidCatalogNumber")
-    else if count == 0 || (cdda && count - 1 > cueCddaReadTrackLimit) then .error (.err "NoTracks") else
-    match readTracks cdda (count - 1) r with
+  | .ok (catf, r0) =>
+    match takeBytes 8 r0 with
     | .error e => .error e
-    | .ok (ts, r2) =>
-      if !(ts.length ≤ (if cdda then cueCddaTrackMax else cueNonCddaTrackMax) && trackChain none ts) then .error (.err "TracksOutOfSequence") else
-      match readLead cdda r2 with
+    | .ok (li, r1) =>
+      match takeBytes 1 r1 with
       | .error e => .error e
-      | .ok (l, r3) =>
-        .ok ({ cdda, catalog := cat, leadIn := if cdda then beNat ((h.drop 128).take 8) else 0, tracks := ts, lead := l }, r3)
+      | .ok (fl, r2) =>
+        match takeBytes 258 r2 with
+        | .error e => .error e
+        | .ok (_, r3) =>
+          match takeBytes 1 r3 with
+          | .error e => .error e
+          | .ok (cnt, r) =>
+            match readCatalog (fl.headD 0 / 128 == 1) catf with
+            | .error e => .error e
+            | .ok cat =>
+              if cnt.headD 0 == 0 || ((fl.headD 0 / 128 == 1) && cnt.headD 0 - 1 > cueCddaReadTrackLimit) then .error (.err "NoTracks") else
+              match readTracks (fl.headD 0 / 128 == 1) (cnt.headD 0 - 1) r with
+              | .error e => .error e
+              | .ok (ts, r2) =>
+                if !(ts.length ≤ (if fl.headD 0 / 128 == 1 then cueCddaTrackMax else cueNonCddaTrackMax) && trackChain none ts) then .error (.err "TracksOutOfSequence") else
+                match readLead (fl.headD 0 / 128 == 1) r2 with
+                | .error e => .error e
+                | .ok (l, r3) =>
+                  .ok ({ cdda := fl.headD 0 / 128 == 1, catalog := cat, leadIn := if fl.headD 0 / 128 == 1 then beNat li else 0, tracks := ts, lead := l }, r3)
 
 /-! ### accessors -/
 
